@@ -129,7 +129,7 @@ satisfies the autoref invariant (C08) -/
 theorem All_autoref_of_goodParts {m : Mgr} (h : GoodParts m (fun _ => 0)) :
     AInv true ({ m := m } : AMgr) :=
   ⟨⟨h.inv, h.order, h.exact.extCongr fun k => (hcount_of_isEmpty _ k TreeMap.isEmpty_emptyc).symm,
-    h.ctx, h.sched, h.roots, ⟨fun _ => h.off, fun hf => nomatch hf⟩⟩,
+    h.ctx, h.sched, h.roots, fun _ => h.off⟩,
    fun hd u hh => by
     rw [show ({ m := m } : AMgr).handles = (∅ : TreeMap Nat Int) from rfl,
       TreeMap.getElem?_emptyc] at hh
@@ -156,7 +156,7 @@ theorem All_constructor_chains (levels : List (String × Int)) (hnames : (levels
   refine ⟨h1, fun ops hg => reachable4_from_parts ops _ _ hP hg, ?_, ?_, ?_⟩
   · obtain ⟨m1, m2, e1, -, e2, -, hz⟩ := C08_collect_then_shutdown _ hA TreeMap.isEmpty_emptyc
     exact ⟨m1, m2, e1, e2, hz⟩
-  · exact ⟨hP.inv, hP.order, hP.exact, hP.ctx, hP.sched, hP.roots, ⟨fun _ => hP.off, fun hf => nomatch hf⟩⟩
+  · exact ⟨hP.inv, hP.order, hP.exact, hP.ctx, hP.sched, hP.roots, fun _ => hP.off⟩
   · intro dvars hks hd
     obtain ⟨out, mb', he, hb, -, -⟩ :=
       C15_bddToMdd_total _ _ hA.minv.reorderInv hks hP.sched dvars hd
